@@ -4,7 +4,7 @@
    the x/net/html tokenizer + decodeToWriter as one byte automaton, see Armor.v header). *)
 From Coq Require Import List NArith Bool Arith String.
 From Snow Require Import Lib.Wire Model.Base64 Model.Armor.
-From Snow Require Import Proofs.Base64Proofs Proofs.ArmorEncProofs Proofs.ArmorDecProofs.
+From Snow Require Import Proofs.Base64Proofs Proofs.ArmorEncProofs Proofs.ArmorDecProofs Proofs.ArmorMarkupProofs.
 Import ListNotations.
 Open Scope N_scope.
 
@@ -67,3 +67,66 @@ Proof.
   - repeat constructor.
   - split; [repeat constructor|vm_compute; reflexivity].
 Qed.
+
+(* markup added outside the pre elements.  [a] is any document prefix that ends just after a
+   complete tag/comment outside every pre element (that is what [run dinit a = mk MTxt 0 false o]
+   says; the start of the document and the position after each "</pre>" or boilerplate tag are
+   such points); [m] is any markup which, read on its own from such a point, is a sequence of
+   complete tokens none of which is a pre start/end tag and which hands no text to the decoder
+   ([neutral], decided by [neutralb]): inserting it leaves the result unchanged, for EVERY rest
+   of document [b] (well-formed or not). *)
+Theorem C10_outside_markup : forall a b m o,
+  run dinit a = mk MTxt 0 false o -> neutral m ->
+  armor_decode (a ++ m ++ b) = armor_decode (a ++ b).
+Proof. exact outside_markup. Qed.
+
+Theorem C10_neutral_decidable : forall m, neutralb m = true -> neutral m.
+Proof. exact neutralb_sound. Qed.
+
+Theorem C10_neutral_concat : forall m1 m2, neutral m1 -> neutral m2 -> neutral (m1 ++ m2).
+Proof. exact neutral_app. Qed.
+
+(* non-vacuity: tags with quoted '>' , self-closing tags, comments, doctype, raw-text elements
+   (even containing "<pre>") are neutral; a pre tag and bare text are not; and the insertion
+   points exist in every armored document *)
+Example C10_neutral_examples :
+  forallb neutralb (map bs ["<b>"; "</div>"; "<span title='a>b' class=""x"">"; "<br/>"; "<pre/>"; "<!-- c -->";
+                            "<!-->"; "<!--a--!>"; "<!DOCTYPE y>"; "<?php ?>"; "</>"; "<title>x</title>";
+                            "<xmp><pre></xmp>"; "<noscript><pre></noscript>"; "<TITLE></pre></TiTlE >"]%string) = true
+  /\ neutralb (bs "<pre>") = false /\ neutralb (bs "</pre>") = false /\ neutralb (bs "text") = false.
+Proof. vm_compute. auto. Qed.
+
+Example C10_insertion_points :
+  run dinit [] = mk MTxt 0 false [] /\
+  (exists o, run dinit (firstn 982 boilerplate_start) = mk MTxt 0 false o) /\
+  (exists o, run dinit (boilerplate_start ++ element [bs "0aGk="]) = mk MTxt 1 false o) /\
+  (exists o, run dinit (boilerplate_start ++ bs "<pre>0aGk=</pre>") = mk MTxt 0 false o).
+Proof. split; [reflexivity|]. repeat split; eexists; vm_compute; reflexivity. Qed.
+
+(* every input yields data or exactly one error class, in this priority: how the token stream
+   ended ([t]: clean end, or stray </pre>, nested <pre>, missing </pre>, buffer limit) and what
+   reached the decoder before that ([out]: version byte, then base64 quanta decoded in order) *)
+Theorem C10_decode_classes : forall doc,
+  let out := fst (armor_scan doc) in
+  let t := snd (armor_scan doc) in
+  end_class t /\
+  match armor_decode doc with
+  | DOk d => t = TEnd /\ exists body, out = VERSION :: body /\ b64_decode_seq body = (d, B64Clean)
+  | DErr EEmpty => out = [] /\ t = TEnd
+  | DErr EUnknownVersion => exists v body, out = v :: body /\ v <> VERSION
+  | DErr EBadBase64 =>
+      exists body, out = VERSION :: body /\
+        (snd (b64_decode_seq body) = B64Corrupt \/ (snd (b64_decode_seq body) = B64Partial /\ t = TEnd))
+  | DErr e =>
+      t = TErr e /\
+      (out = [] \/ exists body, out = VERSION :: body /\ snd (b64_decode_seq body) <> B64Corrupt)
+  end.
+Proof. exact decode_classes. Qed.
+
+(* each class is inhabited *)
+Example C10_classes_inhabited :
+  map armor_decode (map bs ["<pre>0QUJD</pre>"; ""; "<pre>1QUJD</pre>"; "<pre>0QU*D</pre>"; "<pre>0QUJ</pre>";
+                            "</pre>"; "<pre><pre>"; "<pre>0QUJD"]%string)
+  = [DOk (bs "ABC"); DErr EEmpty; DErr EUnknownVersion; DErr EBadBase64; DErr EBadBase64;
+     DErr EStray; DErr ENested; DErr EUnterminated].
+Proof. vm_compute. reflexivity. Qed.
